@@ -120,6 +120,7 @@ fn err_class(e: &CanonError) -> &'static str {
         CanonError::MapKeyDuplicate => "MapKeyDuplicate",
         CanonError::Decode(_) => "Decode",
         CanonError::Encode(_) => "Encode",
+        CanonError::NestingLimitExceeded => "NestingLimitExceeded",
     }
 }
 
